@@ -95,3 +95,135 @@ Print Assumptions C18_import_reads_current_file.
 Print Assumptions C18_import_after_export.
 Print Assumptions C18_roundtrip_lumi_refuted_old.
 Print Assumptions C18_import_reads_current_file_refuted_old.
+
+(* ======================= the likelihood half (XmlLik.v) ======================= *)
+Require PV.Spec PV.Impl PV.Ref PV.RefineTop PV.RefineTerms PV.RefineRates PV.RefineTermsTop.
+Require Import PV.XmlLik.
+
+(* the model specification of the re-imported workspace (measurement k) is the original one as far as the likelihood template
+   can see: relation spec_rt of XmlLik.v.  lik_guard: lumi is the name of exactly the lumi-typed modifiers, one modifier per
+   (name, type) in a sample, distinct channel names, staterror named staterror_<channel> with absolute uncertainty surviving the
+   relative form (mask d nom = d, implied by the code's guard nom <> 0, C18_modifier_data_survive_R); NO condition on shapesys.
+   cfg_guard: one configuration per parameter, `sigmas` only on lumi, a lumi modifier comes with its configuration. *)
+Theorem C18_roundtrip_spec_R : forall ws x file k,
+  write RNum ws = inl (x, file) -> w_obs RNum ws <> [] -> stat_ok RNum ws -> names_ok RNum ws ->
+  lik_guard RNum ws -> (k < length (w_meas RNum ws))%nat -> cfg_guard RNum ws (nth k (w_meas RNum ws) (no_meas RNum)) ->
+  exists ws', read RNum x file = inl ws' /\ length (w_meas RNum ws') = length (w_meas RNum ws) /\
+    w_obs RNum ws' = map (fun c => (c_name RNum c, obs_of RNum ws (c_name RNum c))) (w_channels RNum ws) /\
+    spec_rt RNum (to_spec RNum ws k) (to_spec RNum ws' k).
+Proof. exact roundtrip_spec_R. Qed.
+(* hence the template: same multiset of Poisson / Gaussian terms at every parameter point, observation and auxiliary datum,
+   for all interpolation functions and codes and every clip setting *)
+Theorem C18_roundtrip_likelihood_R : forall ws x file k,
+  write RNum ws = inl (x, file) -> w_obs RNum ws <> [] -> stat_ok RNum ws -> names_ok RNum ws ->
+  lik_guard RNum ws -> (k < length (w_meas RNum ws))%nat -> cfg_guard RNum ws (nth k (w_meas RNum ws) (no_meas RNum)) ->
+  exists ws', read RNum x file = inl ws' /\
+    forall ia im nc hc cs cb theta obs aux,
+      Permutation.Permutation (Ref.ref_terms RNum ia im nc hc cs cb (to_spec RNum ws' k) theta obs aux)
+                              (Ref.ref_terms RNum ia im nc hc cs cb (to_spec RNum ws k) theta obs aux).
+Proof. exact roundtrip_likelihood_R. Qed.
+Theorem C18_roundtrip_likelihood_Qc : forall ws x file k,
+  write QcNum ws = inl (x, file) -> w_obs QcNum ws <> [] -> stat_ok QcNum ws -> names_ok QcNum ws ->
+  lik_guard QcNum ws -> (k < length (w_meas QcNum ws))%nat -> cfg_guard QcNum ws (nth k (w_meas QcNum ws) (no_meas QcNum)) ->
+  exists ws', read QcNum x file = inl ws' /\
+    forall ia im nc hc cs cb theta obs aux,
+      Permutation.Permutation (Ref.ref_terms QcNum ia im nc hc cs cb (to_spec QcNum ws' k) theta obs aux)
+                              (Ref.ref_terms QcNum ia im nc hc cs cb (to_spec QcNum ws k) theta obs aux).
+Proof. exact roundtrip_likelihood_Qc. Qed.
+(* ... and, through the C02 refinement on both sides, the IMPLEMENTATION model: when both specifications are accepted by build,
+   the log-likelihood of the re-imported workspace equals that of the original at parameter points and data that agree by name
+   (component j of the parameter called n, bin b of the channel called c, auxiliary datum j of the parameter called n),
+   for any log-density primitives and interpolation functions *)
+Theorem C18_roundtrip_loglik_R : forall ws x file k,
+  write RNum ws = inl (x, file) -> w_obs RNum ws <> [] -> stat_ok RNum ws -> names_ok RNum ws ->
+  lik_guard RNum ws -> (k < length (w_meas RNum ws))%nat -> cfg_guard RNum ws (nth k (w_meas RNum ws) (no_meas RNum)) ->
+  exists ws', read RNum x file = inl ws' /\
+    forall ia im st md md' logpois lognorm pars pars' data data' l l',
+    Impl.build RNum (to_spec RNum ws k) = Impl.Ok md -> Impl.build RNum (to_spec RNum ws' k) = Impl.Ok md' -> RefineTop.clip_guard RNum st ->
+    Impl.logpdf_terms RNum ia im (to_spec RNum ws k) st md pars data = Impl.Ok l ->
+    Impl.logpdf_terms RNum ia im (to_spec RNum ws' k) st md' pars' data' = Impl.Ok l' ->
+    (forall n j, RefineRates.theta RNum md' (Impl.parf RNum pars') n j = RefineRates.theta RNum md (Impl.parf RNum pars) n j) ->
+    (forall c b, RefineTermsTop.obs_by_name RNum (to_spec RNum ws' k) data' c b = RefineTermsTop.obs_by_name RNum (to_spec RNum ws k) data c b) ->
+    (forall n j, RefineTermsTop.aux_of_data RNum (to_spec RNum ws' k) md' data' n j = RefineTermsTop.aux_of_data RNum (to_spec RNum ws k) md data n j) ->
+    RefineTerms.sumlog RNum logpois lognorm l' = RefineTerms.sumlog RNum logpois lognorm l.
+Proof. exact roundtrip_loglik_R. Qed.
+(* a workspace already in the shape the XML dictates (canonical_ws): same log-likelihood at the SAME parameter vector and the
+   SAME data vector (the parameter layouts of the two models are derived to coincide).  This is the full version of
+   C18_roundtrip_likelihood_partial_R. *)
+Theorem C18_roundtrip_loglik_canonical_R : forall ws x file k,
+  write RNum ws = inl (x, file) -> w_obs RNum ws <> [] -> stat_ok RNum ws -> names_ok RNum ws -> canonical_ws RNum ws ->
+  (k < length (w_meas RNum ws))%nat -> cfg_guard RNum ws (nth k (w_meas RNum ws) (no_meas RNum)) ->
+  exists ws', read RNum x file = inl ws' /\ w_channels RNum ws' = w_channels RNum ws /\
+    forall ia im st md md' logpois lognorm pars data l l',
+    Impl.build RNum (to_spec RNum ws k) = Impl.Ok md -> Impl.build RNum (to_spec RNum ws' k) = Impl.Ok md' -> RefineTop.clip_guard RNum st ->
+    Impl.logpdf_terms RNum ia im (to_spec RNum ws k) st md pars data = Impl.Ok l ->
+    Impl.logpdf_terms RNum ia im (to_spec RNum ws' k) st md' pars data = Impl.Ok l' ->
+    RefineTerms.sumlog RNum logpois lognorm l' = RefineTerms.sumlog RNum logpois lognorm l.
+Proof. exact roundtrip_loglik_canonical_R. Qed.
+(* any listing order of the modifiers (lumi anywhere), provided no shapesys carries an uncertainty on a bin without yield
+   (shape_guard: the same nom <> 0 guard as for staterror): same log-likelihood at the SAME parameter vector and data vector;
+   the coincidence of the two parameter layouts is derived (build is independent of the listing order, C12) *)
+Theorem C18_roundtrip_loglik_same_vector_R : forall ws x file k,
+  write RNum ws = inl (x, file) -> w_obs RNum ws <> [] -> stat_ok RNum ws -> names_ok RNum ws ->
+  lik_guard RNum ws -> shape_guard RNum ws -> (k < length (w_meas RNum ws))%nat -> cfg_guard RNum ws (nth k (w_meas RNum ws) (no_meas RNum)) ->
+  exists ws', read RNum x file = inl ws' /\
+    forall ia im st md md' logpois lognorm pars data l l',
+    Impl.build RNum (to_spec RNum ws k) = Impl.Ok md -> Impl.build RNum (to_spec RNum ws' k) = Impl.Ok md' -> RefineTop.clip_guard RNum st ->
+    Impl.logpdf_terms RNum ia im (to_spec RNum ws k) st md pars data = Impl.Ok l ->
+    Impl.logpdf_terms RNum ia im (to_spec RNum ws' k) st md' pars data = Impl.Ok l' ->
+    RefineTerms.sumlog RNum logpois lognorm l' = RefineTerms.sumlog RNum logpois lognorm l.
+Proof. exact roundtrip_loglik_same_vector_R. Qed.
+(* same vectors for ANY pair of specifications related by spec_rt (in particular every round trip of C18_roundtrip_spec_R), with
+   the coincidence of the two parameter layouts as an explicit, decidable premise.
+   PARTIAL: what is missing is the derivation of same_layout from the two `build = Ok` in the one case the theorems above do
+   not cover -- a shapesys with an uncertainty on a bin without yield (the required parameter set is the same, since such a
+   bin is invalid either way, but the proof through Impl.required_all for modifier data that differ is not done).
+   lik_ws below is such a workspace and satisfies same_layout by computation. *)
+Theorem C18_roundtrip_loglik_same_vector_partial_R : forall sp sp', spec_rt RNum sp sp' ->
+  RefineTermsFinal.list_shape_ok RNum sp -> RefineTop.shape_ok RNum sp -> RefineTermsFinal.list_shape_ok RNum sp' -> RefineTop.shape_ok RNum sp' ->
+  forall ia im st md md' logpois lognorm pars data l l',
+  Impl.build RNum sp = Impl.Ok md -> Impl.build RNum sp' = Impl.Ok md' -> RefineTop.clip_guard RNum st -> same_layout RNum md md' ->
+  Impl.logpdf_terms RNum ia im sp st md pars data = Impl.Ok l ->
+  Impl.logpdf_terms RNum ia im sp' st md' pars data = Impl.Ok l' ->
+  RefineTerms.sumlog RNum logpois lognorm l' = RefineTerms.sumlog RNum logpois lognorm l.
+Proof. exact spec_rt_loglik_same_vector_R. Qed.
+(* Workspace.data: the re-imported workspace lists the same main data (observations in the model's channel order) *)
+Theorem C18_roundtrip_main_data_R : forall ws x file,
+  write RNum ws = inl (x, file) -> w_obs RNum ws <> [] -> stat_ok RNum ws -> names_ok RNum ws -> NoDup (map fst (w_obs RNum ws)) ->
+  exists ws', read RNum x file = inl ws' /\ main_data RNum ws' = main_data RNum ws.
+Proof. exact (roundtrip_main_data RNum Rfield R_eqb_spec). Qed.
+(* non-vacuity: lik_ws (two channels, lumi 2 +- 1/5 not listed first, fixed parameters, staterror, shapesys with an uncertainty on an
+   empty bin, histosys, shared normsys, shapefactor, normfactor with custom bounds, two measurements) meets every premise ... *)
+Theorem C18_roundtrip_likelihood_nonvacuous : forall k, (k < 2)%nat ->
+  (exists x f, write QcNum lik_ws = inl (x, f)) /\ w_obs QcNum lik_ws <> [] /\ stat_ok QcNum lik_ws /\ names_ok QcNum lik_ws /\
+  lik_guard QcNum lik_ws /\ (k < length (w_meas QcNum lik_ws))%nat /\ cfg_guard QcNum lik_ws (nth k (w_meas QcNum lik_ws) (no_meas QcNum)).
+Proof. exact roundtrip_likelihood_nonvacuous. Qed.
+(* ... both specifications are accepted by build, the log-likelihood is defined at the same parameter vector and the workspace's
+   own data vector (which is also the re-imported workspace's data vector), and the layouts coincide *)
+Theorem C18_roundtrip_loglik_nonvacuous : forall k, (k < 2)%nat ->
+  exists x f ws' md md' pars data l l',
+    write QcNum lik_ws = inl (x, f) /\ read QcNum x f = inl ws' /\
+    Impl.build QcNum (to_spec QcNum lik_ws k) = Impl.Ok md /\ Impl.build QcNum (to_spec QcNum ws' k) = Impl.Ok md' /\
+    RefineTop.clip_guard QcNum demo_st /\ same_layout QcNum md md' /\ data = to_data QcNum lik_ws md /\ to_data QcNum ws' md' = data /\
+    Impl.logpdf_terms QcNum demo_ia demo_im (to_spec QcNum lik_ws k) demo_st md pars data = Impl.Ok l /\
+    Impl.logpdf_terms QcNum demo_ia demo_im (to_spec QcNum ws' k) demo_st md' pars data = Impl.Ok l'.
+Proof. exact roundtrip_loglik_nonvacuous. Qed.
+(* ... and lik_ws2 (no shapesys uncertainty on the empty bin) meets the premises of C18_roundtrip_loglik_same_vector_R, with both
+   specifications accepted and the log-likelihood defined (demo_impl_check) *)
+Theorem C18_roundtrip_loglik_same_vector_nonvacuous : forall k, (k < 2)%nat ->
+  ((exists x f, write QcNum lik_ws2 = inl (x, f)) /\ w_obs QcNum lik_ws2 <> [] /\ stat_ok QcNum lik_ws2 /\ names_ok QcNum lik_ws2 /\
+   lik_guard QcNum lik_ws2 /\ (k < length (w_meas QcNum lik_ws2))%nat /\ cfg_guard QcNum lik_ws2 (nth k (w_meas QcNum lik_ws2) (no_meas QcNum))) /\
+  shape_guard QcNum lik_ws2 /\ demo_impl_check lik_ws2 k = true.
+Proof. exact roundtrip_loglik_same_vector_nonvacuous. Qed.
+
+Print Assumptions C18_roundtrip_spec_R.
+Print Assumptions C18_roundtrip_likelihood_R.
+Print Assumptions C18_roundtrip_likelihood_Qc.
+Print Assumptions C18_roundtrip_loglik_R.
+Print Assumptions C18_roundtrip_loglik_canonical_R.
+Print Assumptions C18_roundtrip_loglik_same_vector_R.
+Print Assumptions C18_roundtrip_loglik_same_vector_partial_R.
+Print Assumptions C18_roundtrip_main_data_R.
+Print Assumptions C18_roundtrip_likelihood_nonvacuous.
+Print Assumptions C18_roundtrip_loglik_nonvacuous.
+Print Assumptions C18_roundtrip_loglik_same_vector_nonvacuous.
